@@ -9,7 +9,7 @@
    the documented tokenizer on every run. *)
 From Coq Require Import List ZArith Bool.
 Import ListNotations.
-From LC Require Import Base Tree Api Writer TreeFacts WriterFacts Tokens Lexer Reader LexWrite OptFacts.
+From LC Require Import Base Tree Api Writer TreeFacts WriterFacts Tokens Lexer Parser Reader LexWrite ParseWrite OptFacts OptRead.
 Local Open Scope Z_scope.
 
 (* the output is exactly the rendering of the pieces, in order *)
@@ -101,3 +101,47 @@ Theorem C19_scanner_tokens_option_free : forall fmt_double atof FS c c' c2 kids 
     filter not_semi (map lt_tok toks') = filter not_semi (map lt_tok toks).
 Proof. exact scanner_tokens_option_free. Qed.
 Print Assumptions C19_scanner_tokens_option_free.
+
+
+(* ------------------------------------------------------------------------------------------------------- *)
+(* through the parser: the options are invisible after a write - read round trip (OptRead.v)                 *)
+(* ------------------------------------------------------------------------------------------------------- *)
+
+(* two configurations with the same tree, the same default format, float precision and notation, and ANY other output
+   settings (semicolons, colon assignment, brace placement, tab width, ...): both written texts are read back successfully
+   and the two re-read trees are the same (names, order, types, values, effective formats) *)
+Theorem C19_options_invisible : forall fmt_double atof FS c c' c2 c2' kids f h l fi,
+  c_root c = Setting None PGroup kids f h l fi -> kids <> [] ->
+  c_root c' = c_root c -> same_spelling c c' ->
+  writable fmt_double atof c (c_root c) -> pstruct (c_root c) ->
+  nest_of (flat_map (piece_tok fmt_double atof c) (pieces c (c_root c) 0) ++ [TkEOF]) 0 0 <= NEST_LIMIT ->
+  let r := config_read atof FS c2 None (config_write fmt_double c) in
+  let r' := config_read atof FS c2' None (config_write fmt_double c') in
+  rd_out_ r = RdOk /\ rd_out_ r' = RdOk /\
+  obs (c_root (rd_cfg r')) = obs (c_root (rd_cfg r)) /\
+  obs (c_root (rd_cfg r)) = ON None PGroup 0 (map (fun m => nobs fmt_double atof c (s_name m) m) kids).
+Proof. exact options_invisible. Qed.
+Print Assumptions C19_options_invisible.
+
+(* float precision and notation change the float VALUES read back (each is the strtod of its rendering) and nothing else *)
+Theorem C19_precision_changes_floats_only : forall fmt_double atof FS c c' c2 c2' kids f h l fi,
+  c_root c = Setting None PGroup kids f h l fi -> kids <> [] ->
+  c_root c' = c_root c -> c_deffmt c' = c_deffmt c ->
+  writable fmt_double atof c (c_root c) -> writable fmt_double atof c' (c_root c') -> pstruct (c_root c) ->
+  nest_of (flat_map (piece_tok fmt_double atof c) (pieces c (c_root c) 0) ++ [TkEOF]) 0 0 <= NEST_LIMIT ->
+  nest_of (flat_map (piece_tok fmt_double atof c') (pieces c' (c_root c') 0) ++ [TkEOF]) 0 0 <= NEST_LIMIT ->
+  let r := config_read atof FS c2 None (config_write fmt_double c) in
+  let r' := config_read atof FS c2' None (config_write fmt_double c') in
+  rd_out_ r = RdOk /\ rd_out_ r' = RdOk /\
+  erase_floats (obs (c_root (rd_cfg r'))) = erase_floats (obs (c_root (rd_cfg r))) /\
+  obs (c_root (rd_cfg r)) = ON None PGroup 0 (map (fun m => nobs fmt_double atof c (s_name m) m) kids) /\
+  obs (c_root (rd_cfg r')) = ON None PGroup 0 (map (fun m => nobs fmt_double atof c' (s_name m) m) kids).
+Proof. exact precision_changes_floats_only. Qed.
+Print Assumptions C19_precision_changes_floats_only.
+
+(* non-vacuity: the example configuration under another option vector and tab width: the texts differ, the re-read trees
+   do not *)
+Example C19_options_invisible_example :
+  same_spelling RoundExample.ex_cfg ex_cfg' /\
+  config_write Run.fmt_double ex_cfg' <> config_write Run.fmt_double RoundExample.ex_cfg.
+Proof. exact (conj ex_same_spelling ex_texts_differ). Qed.
